@@ -27,6 +27,13 @@ def res(f):
         return ('foreign', type(e).__name__)
 
 
+BYTEINTS = [('byteint', 1, False, False, 'Int8ub'), ('byteint', 1, True, False, 'Int8sb'), ('byteint', 2, False, False, 'Int16ub'), ('byteint', 2, True, False, 'Int16sb'),
+            ('byteint', 2, True, True, 'Int16sl'), ('byteint', 2, False, True, 'Int16ul'), ('byteint', 3, False, False, 'Int24ub'), ('byteint', 3, True, False, 'Int24sb'),
+            ('byteint', 3, True, True, 'Int24sl'), ('byteint', 3, False, True, 'Int24ul'), ('byteint', 2, True, False, 'BytesInteger(2, signed=True)'),
+            ('byteint', 3, True, True, 'BytesInteger(3, signed=True, swapped=True)'), ('byteint', 1, True, False, 'BytesInteger(1, signed=True)'),
+            ('byteint', 2, False, True, 'BytesInteger(2, swapped=True)'), ('byteint', 4, True, False, 'Int32sb'), ('byteint', 4, True, True, 'Int32sl')]
+
+
 def field_srcs(fields):
     out = []
     for i, f in enumerate(fields):
@@ -41,6 +48,8 @@ def field_srcs(fields):
             out.append('Padding(%d)' % f[1])
         elif k == 'bytewise':
             out.append('"%s"/Bytewise(Bytes(%d))' % (nm, f[1]))
+        elif k == 'byteint':
+            out.append('"%s"/Bytewise(%s)' % (nm, f[4]))
         elif k == 'array':
             out.append('"%s"/Array(%d, BitsInteger(%d))' % (nm, f[1], f[2]))
         elif k == 'struct':
@@ -70,6 +79,8 @@ def expected_bits(fields, vals):
             parts = [(f[1], 0)]
         elif k == 'bytewise':
             parts = [(8 * f[1], int.from_bytes(vals[nm], 'big'))]
+        elif k == 'byteint':
+            parts = [(8 * f[1], pattern(8 * f[1], f[2], f[3], vals[nm]))]
         elif k == 'array':
             parts = [(f[2], x) for x in vals[nm]]
         elif k == 'struct':
@@ -86,7 +97,7 @@ def expected_bits(fields, vals):
 
 def width_of(f):
     k = f[0]
-    return {'int': lambda: f[1], 'flag': lambda: 1, 'pad': lambda: f[1], 'bytewise': lambda: 8 * f[1], 'array': lambda: f[1] * f[2],
+    return {'int': lambda: f[1], 'flag': lambda: 1, 'pad': lambda: f[1], 'bytewise': lambda: 8 * f[1], 'byteint': lambda: 8 * f[1], 'array': lambda: f[1] * f[2],
             'struct': lambda: f[1] + f[2], 'nib': lambda: {'Bit': 1, 'Nibble': 4, 'Octet': 8}[f[1]], 'zero': lambda: 0,
             'aligned': lambda: f[1] + (-f[1]) % 8}[k]()
 
@@ -111,8 +122,11 @@ def gen_fields(rng, total):
             f = ('flag',)
         elif r < 0.72:
             f = ('pad', min(left, rng.choice([1, 2, 3, 5])))
-        elif r < 0.8 and left >= 8:
+        elif r < 0.76 and left >= 8:
             f = ('bytewise', rng.choice([1, 2]) if left >= 16 else 1)
+        elif r < 0.8 and left >= 8:
+            # an integer of the byte level as an island in the bit region: (bytes, signed, swapped, spelling)
+            f = rng.choice([x for x in BYTEINTS if 8 * x[1] <= left])
         elif r < 0.87:
             w = rng.choice([1, 2, 3])
             n = rng.choice([1, 2, 3])
@@ -141,6 +155,9 @@ def gen_vals(rng, fields, exhaustive_index=None):
             vals[nm] = rng.random() < 0.5
         elif k == 'bytewise':
             vals[nm] = G.rand_bytes(rng, f[1])
+        elif k == 'byteint':
+            lo, hi = (-(1 << (8 * f[1] - 1)), (1 << (8 * f[1] - 1)) - 1) if f[2] else (0, (1 << (8 * f[1])) - 1)
+            vals[nm] = rng.choice([lo, hi, -1 if f[2] else hi, G.edge_int(rng, lo, hi), G.edge_int(rng, lo, hi)])
         elif k == 'array':
             vals[nm] = [rng.randrange(1 << f[2]) for _ in range(f[1])]
         elif k == 'struct':
